@@ -216,6 +216,38 @@ func cmdPairs(args []string) {
 				}
 			}
 		}
+		// ordered pairs of URIs (and of a URI with every other kind of name): a rule that stops at the first entry of some
+		// shape must do so in both copies
+		var uriIdx, otherIdx []int
+		for i, raw := range vocab {
+			if len(raw) > 0 && raw[0] == forge.GNURI {
+				uriIdx = append(uriIdx, i)
+			} else if i%9 == 0 {
+				otherIdx = append(otherIdx, i)
+			}
+		}
+		plantPair := func(a, b int, tag string) {
+			v := tmpl.Clone()
+			val := forge.GeneralNames(forge.Raw(vocab[a]), forge.Raw(vocab[b])).Bytes()
+			v.SetExt(forge.OIDSAN, forge.MakeExt(forge.OIDSANNode(), false, val))
+			v.SetExt(forge.OIDIAN, forge.MakeExt(forge.OIDIANNode(), false, val))
+			if vt := parseVariant(tbase, v); vt != nil {
+				vt.ID = "planted"
+				emit(vt, tag)
+				nforged++
+			}
+		}
+		for _, a := range uriIdx {
+			for _, b := range uriIdx {
+				if a != b {
+					plantPair(a, b, fmt.Sprintf("planted-uri-pair:%d:%d", a, b))
+				}
+			}
+			for _, b := range otherIdx {
+				plantPair(a, b, fmt.Sprintf("planted-mixed-pair:%d:%d", a, b))
+				plantPair(b, a, fmt.Sprintf("planted-mixed-pair:%d:%d", b, a))
+			}
+		}
 		// empty lists
 		v := tmpl.Clone()
 		v.SetExt(forge.OIDSAN, forge.MakeExt(forge.OIDSANNode(), false, forge.GeneralNames().Bytes()))
@@ -250,6 +282,35 @@ func cmdPairs(args []string) {
 			if vt := parseVariant(tbase, v); vt != nil {
 				vt.ID = "planted"
 				emit(vt, "dn:country-tag")
+			}
+		}
+		// DN shapes the parser accepts: an empty RDN (SET OF nothing) before / after / next to a multi-valued one, repeated attributes
+		for shape := 0; shape < 5; shape++ {
+			v := tmpl.Clone()
+			s := v.Subject()
+			if len(s.Children) < 2 {
+				break
+			}
+			empty := forge.Cons(0x11)
+			switch shape {
+			case 0:
+				s.Children = append([]*forge.Node{empty}, s.Children...)
+			case 1:
+				s.Children = append(s.Children, empty)
+			case 2: // C / <empty> / (O + CN)
+				s.Children[0].Children = append(s.Children[0].Children, s.Children[1].Children...)
+				s.Children = append([]*forge.Node{s.Children[0], empty}, s.Children[2:]...)
+			case 3:
+				s.Children[0].Children = append(s.Children[0].Children, s.Children[1].Children...)
+				s.Children = append([]*forge.Node{empty, empty, s.Children[0]}, s.Children[2:]...)
+			case 4:
+				s.Children = append(s.Children, s.Children[0].Clone(), s.Children[1].Clone())
+			}
+			v.SetIssuer(s.Clone())
+			if vt := parseVariant(tbase, v); vt != nil {
+				vt.ID = "planted"
+				emit(vt, fmt.Sprintf("dn:rdn-shape%d", shape))
+				nforged++
 			}
 		}
 		{ // a multi-valued RDN on both sides
